@@ -8,4 +8,4 @@ trap 'git -C /repo checkout -q -- . ; git -C /repo clean -qfd src tests 2>/dev/n
 git -C /repo apply /verif/seeded/$seed/patch.diff || { echo "patch does not apply"; exit 3; }
 ./check $pid --tier $tier --no-evidence > /tmp/seedrun_${seed}_${pid}.log 2>&1
 rc=$?
-echo "seed=$seed check=$pid tier=$tier exit=$rc $(grep -c '^VIOLATION' /tmp/seedrun_${seed}_${pid}.log) violation lines; $(grep -m1 '^VIOLATION\|INCONCLUSIVE' /tmp/seedrun_${seed}_${pid}.log | cut -c1-260)"
+echo "seed=$seed check=$pid tier=$tier exit=$rc $(grep -c '^VIOLATION' /tmp/seedrun_${seed}_${pid}.log) violation lines; $(grep -m1 -A1 '^VIOLATION\|INCONCLUSIVE' /tmp/seedrun_${seed}_${pid}.log | tr '\n' ' ' | cut -c1-330)"
